@@ -28,7 +28,13 @@ def check(scn, H, view=None):
     for rec in H['ops']:
         op = scn['schedule'][rec['i']]
         if rec['op'] in ('run', 'reset'):
-            if rec['exc'] is not None:
+            if rec['exc'] is not None and rec.get('expected_failure') \
+                    and rec.get('dump') is not None:
+                # a run ended by the user's own mistake (a stop condition
+                # that cannot be compared): the history it leaves behind is
+                # judged like any other, and so is what follows
+                st['F_BADPARAM_run_ended_by_bad_stop'] += 1
+            elif rec['exc'] is not None:
                 ok_so_far = False        # a run that raised is not judged
                 if rec['op'] == 'reset':
                     st['reset_raised'] += 1
